@@ -225,9 +225,35 @@ fn single_steps() {
     }
 }
 
+/// found missing by seed C20e: a supplied block that differs from the builder's default in ONE field
+/// only (chain id, height or time), alone and next to other steps, in either order; and a second
+/// with_block that differs from the first in one field only
+fn block_differing_in_one_field() {
+    let mut blk = mock_env().block;
+    match choose(3) {
+        0 => blk.chain_id = "other-chain-9".into(),
+        1 => blk.height += 1,
+        _ => blk.time = blk.time.plus_nanos(1),
+    }
+    let app = match choose(4) {
+        0 => AppBuilder::new().with_block(blk.clone()).build(|_, _, _| {}),
+        1 => AppBuilder::new().with_block(blk.clone()).with_bank(BankKeeper::new()).build(|_, _, _| {}),
+        2 => AppBuilder::new().with_bank(BankKeeper::new()).with_block(blk.clone()).build(|_, _, _| {}),
+        _ => {
+            let mut first = blk.clone();
+            first.chain_id = "first-chain".into();
+            AppBuilder::new().with_block(first).with_block(blk.clone()).build(|_, _, _| {})
+        }
+    };
+    let b = app.block_info();
+    check_native("supplied_block_is_used", b == blk, || format!("{:?} vs supplied {:?}", b, blk));
+    witness("built_block");
+}
+
 pub fn scenarios(_tier: &str) -> Vec<Scenario> {
     vec![
         Scenario::new("all_eleven_steps_three_orders", &["built_full"], full_orders),
         Scenario::new("single_steps_and_defaults", &["built_single"], single_steps),
+        Scenario::new("supplied_block_differing_from_the_default_in_one_field", &["built_block"], block_differing_in_one_field),
     ]
 }
